@@ -76,6 +76,19 @@ def locate(problem, pos):
     return out
 
 
+def msc_on(log):
+    return " msc 1 " in (log.config + " ")
+
+
+def msc_applies(log, s):
+    """the along-step of this step went through Urban MSC (recorded, or — stock action without
+    recording adapter — possible because the run has MSC and the particle is e-/e+)"""
+    if s.M is not None:
+        return bool(s.M["appl"])
+    return msc_on(log) and abs(log.particles[s.pid]["pdg"]) == 11 and s.along == log.q.get(
+        "along-user")
+
+
 def model_ops(log, s, prev_nstep):
     """list of (op, expected) for one step that was alive at user_pre"""
     ops = []
@@ -95,7 +108,33 @@ def model_ops(log, s, prev_nstep):
     else:
         dist, bnd = s.hx["stepa"], s.bnda
     eloss_changed_action = (s.ea == 0.0 and s.e0 > 0.0)
-    if not stopped:
+    msc_step = msc_applies(log, s)
+    M = s.M
+    if M is not None and M["appl"]:
+        # Urban MSC step-limit selection, recomputed from the recorded inputs
+        sc = log.scalars
+        h = M["hx"]
+        ri0 = INF if math.isinf(M["r0"][1]) else h["r0"][0]
+        ri1 = INF if math.isinf(M["r1"][1]) else h["r1"][0]
+        exp = "%s %s %s %s" % (h["true"], ri1, h["r1"][1], h["r1"][2])
+        if M["lim"] and M["alg"] in (1, 2):
+            ops.append(("mscs %d %d %s %s %s %s %s %s %s %s %s %s %s %s %s"
+                        % (1 if M["alg"] == 2 else 0, M["onb"], h["phys"], h["range"], h["mfp"],
+                           h["safety"], ri0, h["r0"][1], h["r0"][2], h["r1"][2],
+                           steplog.hx(sc["msc_range_factor"]), steplog.hx(sc["msc_lambda_limit"]),
+                           steplog.hx(sc["msc_safety_factor"]),
+                           steplog.hx(sc["msc_limit_min_fix"]), h["z"]), exp, "msc-safety"))
+        elif M["lim"] and M["alg"] == 0:
+            ops.append(("mscm %d %s %s %s %s %s %s %s %s %s"
+                        % (M["onb"], h["phys"], h["range"], h["mfp"], ri0, h["r0"][1], h["r0"][2],
+                           steplog.hx(sc["msc_range_factor"]),
+                           steplog.hx(sc["msc_limit_min_fix"]), h["z"]), exp, "msc-minimal"))
+        # propagation applier sees the geometrical path and (if MSC limited) the msc action
+        if not stopped:
+            ops.append(("prop %s %s %s %d" % (h["geom"], "s" if M["limited"] else la, dist, bnd),
+                        "%s %s" % (s.hx["stepa"], aa),
+                        "prop-msc-geom" if eloss_changed_action else "prop-msc-action-only"))
+    elif not stopped and not msc_step:
         exp_a = aa
         op = "prop %s %s %s %d" % (lim, la, dist, bnd)
         ops.append((op, "%s %s" % (s.hx["stepa"], exp_a), "prop-step-only" if eloss_changed_action
@@ -109,8 +148,9 @@ def model_ops(log, s, prev_nstep):
     ops.append(("tupd %s %s %s %s %s %d" % (st2, aa, s.hx["mfp0"], s.hx["stepa"], s.hx["xs"],
                                             s.nstep - 1),
                 "%s %d" % (s.hx["mfpa"], s.nstep), "tupd"))
-    # position
-    if not stopped:
+    # position (an MSC step moves by the GEOMETRICAL distance, then may be displaced laterally)
+    if not stopped and (not msc_step or (s.G is not None and M is not None
+                                         and not M["displaced"])):
         ops.append(("move %s %s %s" % (" ".join(s.hx["pos0"]), " ".join(s.hx["dir0"]), dist),
                     " ".join(s.hx["pos1"]), "move"))
     # status machine
@@ -149,6 +189,48 @@ def tie_scenarios():
                   "opts": {"fixed_step_limiter": lim}}
             out.append(("mock", prim, kw))
             k += 1
+    return out
+
+
+MSC_ALGS = ("safety", "safety_plus", "minimal")
+
+
+def msc_scenarios(rng, quick):
+    """Urban MSC in the real along-step (mock problem with hand-made MSC tables): low-energy e-/e+
+    started near / on / far from the spherical boundaries, for the three step-limit algorithms,
+    MSC cross-section scales from 'limit_min far above the range' (physics step below the MSC floor)
+    to 'many MSC-limited, displaced, safety-capped steps', stock and recording along-steps"""
+    out = []
+    scales = [1e-6, 1e-5, 1e-4, 1e-3, 1e-2, 0.1, 1.0, 10.0]
+    k = 0
+    for alg in MSC_ALGS:
+        for j in range(3 if quick else 8):
+            if alg == "minimal":
+                # the minimal algorithm samples when the cached per-volume limit is below the
+                # physics step: needs an MSC mean free path comparable to the range
+                mscxs = [1e-2, 1.0, 0.1, 10.0][(j + rng.below(2)) % 4]
+            elif quick:
+                mscxs = [[1e-6, 1e-5], [1e-3, 1e-2], [1.0, 10.0]][j][rng.below(2)]
+            else:
+                mscxs = scales[j]
+            along = ["vlinear", "vfluct", "vlinear", "linear"][(k + j) % 4]
+            prim = []
+            for i in range(6):
+                name = "electron" if (i + k) % 3 else "positron"
+                e = [0.002, 0.005, 0.02, 0.05, 0.3, 2.0][(i + j) % 6] * (1 + 0.3 * rng.unit())
+                r0 = [0.9999, 0.999, 2.9999, 1.0, 2.99, 0.5, 0.0, 5.999][(i + 2 * j + k) % 8]
+                d = c01.unit_dir(rng) if i % 2 else [1.0, 0.0, 0.0]
+                prim.append((name, e, [r0, 0.0, 0.0], d, i % 2, 6 if quick else 10))
+            kw = {"slots": 16, "along": along, "interactor": 1, "msc": 1, "mscalg": alg,
+                  "mscxs": mscxs, "maxsteps": 1500 if quick else 4000, "maxevents": 4,
+                  "lossscale": [1.0, 0.1, 0.01][(j + k) % 3],
+                  "seed": rng.below(1 << 30), "posrest": (j + k) % 2,
+                  "order": ["none", "reindex_particle_type", "init_charge"][(j + k) % 3],
+                  "opts": {"lowest_electron_energy": 1e-4,
+                           "range_factor": [0.04, 0.001, 0.2][(j + k) % 3],
+                           "lambda_limit": [0.1, 1e-3][j % 2]}}
+            out.append(("mock", prim, kw))
+        k += 1
     return out
 
 
@@ -226,7 +308,10 @@ def oracle(log, problem):
         if hit and s.st[2] == "a":
             if s.stepa == s.lim:
                 n["ties"] += 1
-            if s.acta != bnd_act or (s.G is not None and s.hx["stepa"] != s.G["hx"]):
+            msc_step = msc_applies(log, s)
+            bad_len = (s.G is not None and ((s.stepa < s.G["dist"]) if msc_step
+                                            else (s.hx["stepa"] != s.G["hx"])))
+            if s.acta != bnd_act or bad_len:
                 add("boundary-hit-without-boundary-action", s,
                     {"tie": s.stepa == s.lim, "action_after_along": log.label(s.acta),
                      "on_boundary": s.bnda, "recorded_propagation": s.G})
@@ -242,8 +327,65 @@ def oracle(log, problem):
                      "tie": s.stepa == s.lim})
         if s.vol1 != s.vol0 and not (s.act == bnd_act or (s.act3 == bnd_act)):
             add("volume-changed-without-boundary-action", s)
-        if s.act == bnd_act and s.st[4] == "a" and s.vol1 == s.vol0:
+        # (with MSC the direction may be scattered back while ON the surface: re-entry is legal)
+        if s.act == bnd_act and s.st[4] == "a" and s.vol1 == s.vol0 and not msc_applies(log, s):
             add("boundary-action-kept-volume", s)
+        # ---- a failed interaction (secondary stack exhausted) ends the step with the
+        # physics-failure action; no other model kernel may pick the track up in the same step
+        if s.X is not None:
+            if s.X["calls"] > 1:
+                add("second-interaction-in-one-step", s, {"interactor_calls": s.X["calls"],
+                                                          "first_kind": s.X["first"],
+                                                          "last_kind": s.X["kind"]})
+            if s.X["first"] == "f":
+                n["failed-interactions"] = n.get("failed-interactions", 0) + 1
+                # (a track at rest has step length 0: step_limit({0, failure}) cannot shorten it
+                # and the model action stays — same mechanism as the known step-length finding)
+                lab = log.registry.get(s.act, log.label(s.act))
+                if s.stepa > 0.0 and lab != "physics-failure":
+                    add("failed-interaction-not-followed-by-failure-action", s,
+                        {"post_step_action": lab, "action_id": s.act,
+                         "physics_failure_id": [k for k, v in log.registry.items()
+                                                if v == "physics-failure"]})
+        # ---- Urban MSC (recorded by the adapter around celeritas::UrbanMsc)
+        M = s.M
+        if M is not None and M["appl"]:
+            alg = {0: "minimal", 1: "safety", 2: "safety_plus"}.get(M["alg"], "other")
+            n["msc:" + alg] = n.get("msc:" + alg, 0) + 1
+            if M["lim"]:
+                n["msc-limiter:" + alg] = n.get("msc-limiter:" + alg, 0) + 1
+                if M["true"] == M["r1"][3]:
+                    n["msc-at-limit-min:" + alg] = n.get("msc-at-limit-min:" + alg, 0) + 1
+                if M["phys"] < M["r1"][3]:
+                    n["msc-phys-step-below-limit-min:" + alg] = n.get(
+                        "msc-phys-step-below-limit-min:" + alg, 0) + 1
+                if M["true"] != M["phys"] and M["true"] != M["r1"][3]:
+                    n["msc-sampled:" + alg] = n.get("msc-sampled:" + alg, 0) + 1
+                if M["onb"]:
+                    n["msc-on-boundary:" + alg] = n.get("msc-on-boundary:" + alg, 0) + 1
+            # the true path selected by MSC never exceeds the physics step limit chosen at
+            # pre-step, the geometrical path never exceeds the true path
+            if not (M["true"] <= M["phys"]) or not (M["phys"] == s.lim):
+                add("msc-true-path-exceeds-physics-limit", s,
+                    {"true_path": M["true"], "physics_step": M["phys"], "limit_min": M["r1"][3],
+                     "algorithm": alg, "on_boundary": M["onb"], "safety": M["safety"]})
+            if not (0 < M["geom"] <= M["true"]):
+                add("msc-geom-path-exceeds-true-path", s, {"true_path": M["true"],
+                                                           "geom_path": M["geom"]})
+            if M["applied"] and not (M["truefinal"] <= M["true"] * (1 + 4 * EPS)):
+                add("msc-final-true-path-exceeds-selected", s, {"true_path": M["true"],
+                                                                "final": M["truefinal"]})
+            # lateral displacement stays strictly inside the safety sphere
+            if M["displaced"]:
+                n["msc-displaced"] = n.get("msc-displaced", 0) + 1
+                tol = log.scalars["msc_safety_tol"]
+                cap = (1 - tol) * M["asafety"]
+                if M["dlen"] >= cap * (1 - 1e-6):
+                    n["msc-safety-capped"] = n.get("msc-safety-capped", 0) + 1
+                if M["dlen"] > cap * (1 + 1e-9) + 1e-14:
+                    add("msc-displacement-exceeds-safety", s,
+                        {"displacement": M["dlen"], "safety": M["asafety"],
+                         "cap=(1-safety_tol)*safety": cap, "algorithm": alg})
         # MFP bookkeeping
         if s.st[2] == "a" and s.mat >= 0:
             if s.acta == disc:
@@ -292,6 +434,8 @@ def run(ctx):
     ties = tie_scenarios()
     if quick:
         ties = ties[(ctx.seed % 2)::2] + ties[:1]
+    ties = ties + msc_scenarios(ctx.rng, quick)       # forced scenario runs
+    msc_cnt = {}
     for i in range(-len(corpus) - len(ties), n_runs):
         if i < -len(corpus):
             problem, prim, kw = ties[i + len(corpus) + len(ties)]
@@ -318,7 +462,10 @@ def run(ctx):
             continue
         fails, cnt = oracle(log, problem)
         for k in cnt:
-            st[k] += cnt[k]
+            if k in st:
+                st[k] += cnt[k]
+            else:
+                msc_cnt[k] = msc_cnt.get(k, 0) + cnt[k]
         for kind, d in fails:
             st["oracle_fail"] += 1
             key = "oracle:" + kind
@@ -359,6 +506,10 @@ def run(ctx):
                 ok = (got == exp)
                 if kind == "prop-step-only":
                     ok = got.split()[:1] == exp.split()[:1]
+                elif kind == "prop-msc-action-only":
+                    ok = got.split()[1:2] == exp.split()[1:2]
+                elif kind == "prop-msc-geom":
+                    ok = got != "bad-op"
                 if len(samples) < 3 and kind in ("limit", "prop") and j % 97 == 5:
                     samples.append({"op": op, "impl": exp, "model": got})
                 if not ok:
@@ -370,6 +521,14 @@ def run(ctx):
                         ctx.notes.append({"first_model_mismatch:" + kind: {"op": op, "impl": exp,
                                                                            "model": got,
                                                                            "script": lines}})
+    need = (["msc:" + a for a in MSC_ALGS] + ["msc-limiter:" + a for a in MSC_ALGS]
+            + ["msc-sampled:" + a for a in MSC_ALGS] + ["msc-on-boundary:" + a for a in MSC_ALGS]
+            + ["msc-phys-step-below-limit-min:safety", "msc-phys-step-below-limit-min:safety_plus",
+               "msc-displaced", "msc-safety-capped", "failed-interactions"])
+    missing = [k for k in need if not msc_cnt.get(k)]
+    if missing:
+        ctx.violation("coverage-msc", "the MSC / failed-interaction scenarios no longer reach: "
+                      + ", ".join(missing), {"counters": msc_cnt}, found_input=False)
     if st["ties"] == 0:
         ctx.violation("coverage-boundary-tie", "no step had boundary distance == physics step "
                       "limit: the tie scenarios no longer produce ties", {"ties": 0},
@@ -400,6 +559,7 @@ def run(ctx):
                 "of steps of a track and both step points",
         "runs": st["runs"], "steps_checked_by_oracle": st["steps"], "step_joins_checked": st["joins"],
         "points_located": st["points"], "boundary_ties(distance == physics limit)": st["ties"],
+        "msc_and_failure_counters": dict(sorted(msc_cnt.items())),
         "model_ops": st["ops"], "model_op_kinds": st["kinds"],
         "model_mismatches": st["mismatch"], "oracle_failures": st["oracle_fail"],
         "run_verdicts": st["verdicts"],
